@@ -38,7 +38,7 @@ CHECKS = {
     "C17": {"scenarios": ["c17"], "quick_budget_s": 45, "thorough_budget_s": 600,
             "real": ["src/tbbmalloc/frontend.cpp, backend.cpp, backref.cpp, large_objects.cpp, tbbmalloc.cpp (compiled with TBB_USE_DEBUG=1 in the asan flavour)"],
             "assumptions": ["'for all request sizes 0..2^64-1' is a pure-input clause: sizes are drawn from a list biased to every size-class boundary, not enumerated", "large blocks are pattern-checked on a sample of positions (first 4096 bytes, every 4099th byte, last 1024 bytes)"]},
-    "C18": {"scenarios": ["c18"], "quick_budget_s": 45, "thorough_budget_s": 600,
+    "C18": {"scenarios": ["c18", "c18b"], "quick_budget_s": 45, "thorough_budget_s": 600,
             "real": ["src/tbbmalloc/* incl. memory pools (rml::pool_*), mmap/mremap through the simulator's failure-injecting layer"],
             "assumptions": ["the k-th raw allocation to fail is drawn per run (k in 1..14, single / window / long outage), not enumerated per trace"]},
     "C19": {"scenarios": ["c19"], "quick_budget_s": 45, "thorough_budget_s": 600,
